@@ -1385,6 +1385,18 @@ def gen_join(seed):
                     al = {"in": hh, "out": g.new_handle(), "verb": "alias", "keep": rng.random() < 0.5}
                     if g.try_step(al):
                         hh = al["out"]
+                if rng.random() < 0.4:
+                    # ... and the computed column is hidden again before the join (dropped, or overwritten by a plain
+                    # column): it stays reachable through the handle that made it and must still be padded with nulls
+                    names = [n for n, _e in kw]
+                    others = [n for n, _i in g.rr.env[hh].vis if n not in names]
+                    if others and rng.random() < 0.35:
+                        hs = {"in": hh, "out": g.new_handle(), "verb": "mutate", "kw": [[n, cname(rng.choice(others))] for n in names]}
+                    else:
+                        hs = {"in": hh, "out": g.new_handle(), "verb": "drop", "cols": [col(hh, n) for n in names]}
+                    if others and g.try_step(hs):
+                        hh = hs["out"]
+                        g.features.add("hidden_not_null_preserving_column")
                 if side == "r":
                     hr = hh
                 else:
